@@ -19,7 +19,8 @@ import pyfront
 from pyfront import SymInt, SymBytes, SymStr, SymBool
 from symcore import Engine, Inconclusive, HarnessError
 
-CODEC_MODS = [ber, der, per, uper, oer, ccompiler, type_checker, constraints_checker, codecs_init]
+CODEC_MODS = [ber, der, per, uper, oer, ccompiler, type_checker, constraints_checker, codecs_init,
+              top_compiler]
 TEXT_MODS = [jer, xer, gser]
 BINARY_CODECS = ['ber', 'der', 'per', 'uper', 'oer']
 
